@@ -251,11 +251,11 @@ def known_match(entry, case, fail):
 
 def subchecks(ctx):
     return [
-        Sub("mssm", mssm_case(), prop_mssm, {"quick": 150, "thorough": 6000},
+        Sub("mssm", mssm_case(), prop_mssm, {"quick": 600, "thorough": 6000},
             nontrivial=nt_mssm,
             classes=lambda c: ["mssm", "signs:%s%s%s" % tuple("-" if c["p"][k] < 0 else "+" for k in ("Mu", "MassB", "MassWB"))],
             rule="on-shell MSSM point; amu1LChi0, amu1LChipm and their sum vs the independent mp evaluation"),
-        Sub("thdm", thdm_case(), prop_thdm, {"quick": 250, "thorough": 6000},
+        Sub("thdm", thdm_case(), prop_thdm, {"quick": 1000, "thorough": 6000},
             nontrivial=nt_thdm, classes=cls_thdm, known_match=known_match,
             rule="THDM point; calculate_amu_1loop vs the flavour-summed expression evaluated in mp from reported couplings"),
     ]
